@@ -39,7 +39,7 @@ MANIFEST = {
             "nesting and width; any leaf values; any wrapper behaviour whose result contains no wrapper): a wrapper-free tree is "
             "unchanged; the result of unwrap contains no wrapper; unwrap is idempotent; the .unwrap() calls made are exactly the "
             "wrapper nodes of the tree, each once, children before parents; a method that unwraps first gives the same result on a "
-            "pre-unwrapped object; a BijectionReparam / Lambda constructed under eqx.filter_vmap unwraps to the stack of its unwrapped "
+            "pre-unwrapped object; a BijectionReparam / Where / Lambda constructed under eqx.filter_vmap unwraps to the stack of its unwrapped "
             "slices (any number of levels); combine(partition(t)) = t; every leaf below a NonTrainable and every non-inexact leaf is in the "
             "static half; for ANY sequence of structure-preserving updates of the params half, of ANY length, the trained model "
             "re-partitions into the optimiser's output and the ORIGINAL static half (so frozen and non-float leaves are found "
